@@ -1,5 +1,6 @@
 import Driver.Util
 import Torf.Spec.FileSize
+import Torf.Spec.FileSizeHistory
 open Lean Torf Torf.FileSize
 namespace Driver.C20
 
@@ -71,9 +72,102 @@ def verify (j : Json) : Except String Json := do
                ("singleAtDir", jbool (singleAtDir t fs)),
                ("presentExact", jbool (allPresentExact t fs))]
 
+/-! ### histories (Torf.Model.FileSizeHistory) -/
+
+def parseMeta (j : Json) : Except String Torrent := do
+  let name ← getStr j "name"
+  let single ← getBool j "single"
+  let mode ← if single then (Mode.single <$> getNat j "length")
+             else (Mode.multi <$> ((← getArr j "files").mapM parseListed))
+  return ⟨name, mode, ← getNat j "pl", ← getNat j "piecesBytes"⟩
+
+def parseCb (j : Json) : Except String Callback := do
+  let cbj ← j.getObjVal? "cb"
+  match cbj with
+  | Json.null => pure none
+  | _ => do
+    let stops ← getNats j "cb"
+    pure (some fun c => stops.contains c.done)
+
+def parseOp (j : Json) : Except String Op := do
+  let k ← getStr j "k"
+  let o ← getNat j "o"
+  match k with
+  | "edit" => return .edit o (← parseMeta (← j.getObjVal? "meta"))
+  | "setter" => return .setter o (← parseMeta (← j.getObjVal? "meta"))
+  | "copy" => return .copy o
+  | "lookup" => return .lookup o (← getStrs j "p")
+  | "lookupAll" => return .lookupAll o
+  | "props" => return .props o
+  | "check" =>
+    let fs := mkFS (← (← getArr j "fs").mapM parseEntry)
+    return .check o fs (← parseCb j) (← getBool j "raises")
+  | _ => throw s!"unknown history op {k}"
+
+def sizeJson : Except Err Nat → Json
+  | .ok n => jobj [("ok", jnat n)]
+  | .error e => jobj [("err", errJson e)]
+
+def outcomeJson : Outcome → Json
+  | .res r => resJson r
+  | .callbackRaised => jobj [("cbraised", jbool true)]
+
+def listedJson (f : Listed) : Json := jarr [jarr (f.path.map jstr), jnat f.size]
+
+def obsJson : Obs → Json
+  | .nothing => Json.null
+  | .size r => sizeJson r
+  | .sizes l => jarr (l.map sizeJson)
+  | .props sz pc fl => jobj [("size", jnat sz), ("pieces", jnat pc), ("files", jarr (fl.map listedJson))]
+  | .check out calls => jobj [("res", outcomeJson out), ("calls", jarr (calls.map callJson))]
+
+/-- plain components, and in a multi-file torrent no entry with an empty component list (such an
+    entry would be the torrent's top directory itself) -/
+def plainMeta (t : Torrent) : Bool :=
+  plain t.name && t.listed.all (fun f => f.path.all plain) &&
+    (t.isSingle || t.listed.all (fun f => !f.path.isEmpty))
+
+/-- op `c20.history` : {objs : [meta…], ops : [op…]} ↦ per operation: what the code-shaped model
+    shows (`step false`), what the specification prescribes for the metainfo and disk of that
+    moment (`specObs`), what the memoising variant shows (`step true`; for the generator's
+    statistics only), hyp = `opHyp` ∧ plain components, and for checks the per-file errors -/
+def history (j : Json) : Except String Json := do
+  let metas0 ← (← getArr j "objs").mapM parseMeta
+  let ops ← (← getArr j "ops").mapM parseOp
+  let mut objsF : List Obj := metas0.map fun t => ⟨t, []⟩
+  let mut objsT : List Obj := objsF
+  let mut metas := metas0
+  let mut out : Array Json := #[]
+  for op in ops do
+    let rF := step false objsF op
+    let rT := step true objsT op
+    let cur := metas[op.target]?
+    let sp : Obs := match cur with
+      | none => .nothing
+      | some t => specObs t op
+    let hyp : Bool := match cur with
+      | none => false
+      | some t => decide (opHyp t op) && plainMeta t
+    let aux : List (String × Json) := match cur, op with
+      | some t, .check _ fs _ _ =>
+        [("errs", jarr (t.listed.map fun f => jopt errJson (errOf fs f))),
+         ("singleAtDir", jbool (singleAtDir t fs)), ("valid", jbool (validateCore t)),
+         ("presentExact", jbool (allPresentExact t fs))]
+      | _, _ => []
+    let mj := obsJson rF.2
+    let sj := obsJson sp
+    let tj := obsJson rT.2
+    out := out.push (jobj ([("model", mj), ("spec", sj), ("modelEqSpec", jbool (mj == sj)),
+                            ("memoDiffers", jbool (tj != mj)), ("hyp", jbool hyp)] ++ aux))
+    objsF := rF.1
+    objsT := rT.1
+    metas := metaStep metas op
+  return jobj [("steps", Json.arr out)]
+
 def handle (op : String) (j : Json) : Except String Json :=
   match op with
   | "c20.verify" => verify j
+  | "c20.history" => history j
   | _ => throw s!"unknown op {op}"
 
 end Driver.C20
